@@ -62,14 +62,16 @@ fn lex_login(source: &[char]) -> Option<usize> {
         .filter(|i| source[*i] == '@');
 
     let hostport_start = if let Some(cred_end) = cred_end {
-        if let Some(pass_beg) = source[0..cred_end].iter().position(|c| *c == ':') {
+        let pass_beg = source[0..cred_end].iter().position(|c| *c == ':');
+
+        if let Some(pass_beg) = pass_beg {
             if !is_uchar_plus_string(&source[pass_beg + 1..cred_end]) {
                 return None;
             }
         }
 
-        // Check username
-        if !is_uchar_plus_string(&source[0..cred_end]) {
+        // Check username (it ends at the colon that introduces the password)
+        if !is_uchar_plus_string(&source[0..pass_beg.unwrap_or(cred_end)]) {
             return None;
         }
 
